@@ -97,9 +97,6 @@ def run(ctx):
             for via_os in (False, True):
                 for ov, other in itertools.product(OVERRIDES, [None, "On",
                                                                "Off"]):
-                    app = new_app()
-                    if attr is not None:
-                        app.debug = attr
                     env = environ()
                     env["REQUEST_STARTTIME"] = 0.0
                     os.environ.pop("poor_Debug", None)
@@ -116,6 +113,11 @@ def run(ctx):
                             env["poor_Debug"] = ov
                         if other is not None:
                             os.environ["poor_Debug"] = other
+                    # the application is built in the same process
+                    # environment its requests run in
+                    app = new_app()
+                    if attr is not None:
+                        app.debug = attr
                     got = SimpleRequest(env, app).debug
                     os.environ.pop("poor_Debug", None)
                     eattr = bool(attr)
@@ -199,7 +201,14 @@ def run(ctx):
             method = rng.choice(methods)
 
             def build():
+                # on a plain server the process environment says nothing
+                # about debug: a stray value there (left by a shell or
+                # another service) is ignored when the application is built
+                # and when it answers
+                if not via_os:
+                    os.environ["poor_Debug"] = "On" if not eff else "Off"
                 app = new_app()
+                os.environ.pop("poor_Debug", None)
                 if attr is not None:
                     app.debug = attr
 
@@ -239,8 +248,10 @@ def run(ctx):
                     if ov is not None:
                         os.environ["poor_Debug"] = ov
                     env["poor_Debug"] = "On" if not eff else "Off"
-                elif ov is not None:
-                    env["poor_Debug"] = ov
+                else:
+                    if ov is not None:
+                        env["poor_Debug"] = ov
+                    os.environ["poor_Debug"] = "On" if not eff else "Off"
                 return env
             kw = {}
             if site == "construct":
@@ -250,7 +261,8 @@ def run(ctx):
                 method = "POST"
                 kw = {"body": b'{"a": 1}',
                       "content_type": "application/json; charset=" + TOKEN}
-            ans = call(build(), env_for("/boom", **kw))
+            app0 = build()
+            ans = call(app0, env_for("/boom", **kw))
             os.environ.pop("poor_Debug", None)
             body = ans.body or b""
             detail = {"attr": attr, "override": ov, "via_os_environ": via_os,
